@@ -31,7 +31,7 @@ MANIFEST = dict(
         "limits, all k (every query is run for n calls), plus an independent brute-force oracle in the harness (ASan/UBSan)."),
   note=TRUST + "all compared quantities are exact on integer points (squared distances; the reported sqrt is compared through its "
        "square with the nearest-double rule); LC/KHC tree geometry (normals, thresholds) is not modelled - their real per-query "
-       "lower bounds and isLeft decisions are fed to the model and their admissibility is checked exactly per query; the order "
+       "lower bounds and isLeft decisions are fed to the model and their admissibility is checked per query (exactly for kd; with relative slack 2^-40 for LC/KHC, whose bounds are rounded doubles and were observed to exceed the exact distance by an ulp at n=60); the order "
        "std::nth_element leaves inside a leaf and the heap-address tie-break are adopted from the real tree (harness annotation, "
        "tools/c17_drv.py). LeafUniform and admissibility are hypotheses of next_returns_min; the property as stated also quantifies "
        "over bucket sizes > 1, where the real code is wrong (known finding K1, reported by this check with a replay). "
